@@ -25,7 +25,7 @@ LEAN_MODULES = ["MpfVerif.Props.C07"]
 PROPS_FILE = "MpfVerif/Props/C07.lean"
 GEN = []
 MANIFEST = {
-  "text": "Proof on a Lean model of Mode.start/_started/_mode_started_callback/stop/_stopped/_mode_stopped_callback, ModeController.set_mode_state and the three registries (event handlers, switch handlers, delays incl. pending delayed control-event calls of mode devices; every entry tagged with its owning mode and the mechanism that removes it) with every scheduler choice (which pending callback runs next, what user code registers when) an input: for ALL op sequences the lifecycle events posted for a mode form a prefix of (will_start starting started will_stop stopping stopped)*, active_modes is duplicate-free, contains exactly the modes whose active flag is set and is strictly sorted by (priority, name) descending, and whenever a mode's stop completes (its cleanup runs, in _mode_stopped_callback or at the beginning of a restart requested from a mode_<n>_stopped handler) no entry of the stopped run owned by it is left in any registry (a restarted mode owns exactly its fresh footprint and the late callback of the previous stop touches nothing) while entries of other modes are untouched, hence any number of complete cycles restores the registries; accepted starts/stops become pending steps that are enabled. The model is tied to mpf/core/mode.py and mode_controller.py on every check: generated mode sets run on a real machine, the observed call schedule is replayed on the Lean driver (not-enabled = disagreement), posted events, flags, active_modes and canonical registry dumps are compared at every quiescent point; an independent oracle checks the three clauses of the property on the real machine.",
+  "text": "Proof on a Lean model of Mode.start/_started/_mode_started_callback/stop/_stopped/_mode_stopped_callback, ModeController.set_mode_state and the three registries (event handlers incl. the one-shot handler ModeController._player_turn_ended registers on mode_<n>_started for a game mode still starting at turn end, switch handlers, delays incl. pending delayed control-event calls of mode devices; every entry tagged with its owning mode and the mechanism that removes it) with every scheduler choice (which pending callback runs next, what user code registers when) an input: for ALL op sequences the lifecycle events posted for a mode form a prefix of (will_start starting started will_stop stopping stopped)*, active_modes is duplicate-free, contains exactly the modes whose active flag is set and is strictly sorted by (priority, name) descending, and whenever a mode's stop completes (its cleanup runs, in _mode_stopped_callback or at the beginning of a restart requested from a mode_<n>_stopped handler) no entry of the stopped run owned by it is left in any registry (a restarted mode owns exactly its fresh footprint and the late callback of the previous stop touches nothing) while entries of other modes are untouched, hence any number of complete cycles restores the registries; accepted starts/stops become pending steps that are enabled. The model is tied to mpf/core/mode.py and mode_controller.py on every check: generated mode sets run on a real machine, the observed call schedule is replayed on the Lean driver (not-enabled = disagreement), posted events, flags, active_modes and canonical registry dumps are compared at every quiescent point; an independent oracle checks the three clauses of the property on the real machine.",
   "note": "Trusted: Lean kernel + {propext, Classical.choice, Quot.sound}; the hand-written model Model/Mode.lean (validated only by the differential runs); the event bus (C01/C02) is not re-modelled: which callback runs when is an input. Mode footprints (which handlers a configuration registers in start / on started and which mechanism removes them) are calibrated on the real machine, not derived. Not claimed: a stop requested from a mode_<n>_started handler runs mode_stop before mode_start when mode_<n>_stopping has no handlers (custom mode code only).",
   "technique": "Lean 4 theorems (invariants by induction over op sequences) on a hand model + schedule-replaying differential correspondence with real modes + independent oracle",
   "translated": False,
@@ -33,7 +33,8 @@ MANIFEST = {
 RULE = ("cases: 1-3 modes drawn from a pool (priorities with ties, game / non-game, use_wait_queue, flavours plain / devices "
         "(counter, timer, event_player) / game devices (shot, variable_player, light_player, counter) / devices with DELAYED "
         "control events in dict form (counter, accrual, shot: enable/disable/reset/restart/advance_events: {ev: 125ms..1s}, "
-        "posted at grid instants 0-3 ticks before a stop / stop event / ball end), 0-4 hooks on "
+        "posted at grid instants 0-3 ticks before a stop / stop event / ball end), game modes whose starting queue event is "
+        "held open across one or two turn ends (ball end; also the game ending first), 0-4 hooks on "
         "lifecycle events (start/stop of any mode, delay / handler / switch handler registered on the mode, wait+clear "
         "later on queue events, priority above or below the mode's own handlers), 3-14 top-level ops (start, stop, start/"
         "stop event, start by queue event, user registrations, advance, ball end), 1-5 cycles. non-trivial = at least one "
@@ -52,6 +53,7 @@ ASSUMPTIONS = ["handlers, delays and switch handlers registered on behalf of a m
                "no exception escapes a handler; the machine is not shutting down"]
 
 GRID = 0.125
+TURN_END_CB = "ModeController._stop_mode_started_at_turn_end"
 PHASES = ["will_start", "starting", "started", "will_stop", "stopping", "stopped"]
 ABBR = {"will_start": "ws", "starting": "sg", "started": "sd", "will_stop": "wp", "stopping": "pg", "stopped": "pd"}
 EV_RE = re.compile(r"^mode_(m\d)_(will_start|starting|started|will_stop|stopping|stopped)$")
@@ -246,6 +248,23 @@ def _install():
                 r.posted(m.group(1), m.group(2))
         return o_post(self, event, ev_type, callback, **kwargs)
     EM._post = post
+    from mpf.core import mode_controller as mcmod
+    MC = mcmod.ModeController
+    if hasattr(MC, "_stop_mode_started_at_turn_end"):
+        o_pte = MC._player_turn_ended
+
+        def _player_turn_ended(self, player, **kwargs):
+            r = Rec.cur
+            if r is None:
+                return o_pte(self, player, **kwargs)
+            before = r.turn_handlers()
+            res = o_pte(self, player, **kwargs)
+            after = r.turn_handlers()
+            for m in sorted(r.names):      # a game mode still starting at turn end: one-shot handler on mode_<n>_started
+                for _ in range(after.get(m, 0) - before.get(m, 0)):
+                    r.L.append(("user", "turnend", m, 0))
+            return res
+        MC._player_turn_ended = _player_turn_ended
     DM = dlmod.DelayManager
     o_init = DM.__init__
 
@@ -407,6 +426,14 @@ class Real:
         # inside the active setter (between the flag and the list update) nothing of ours runs, so this must hold
         if act != exp and not self.violations:
             self.violations.append(("active-list", {"where": where, "active_modes": act, "expected": exp}))
+
+    def turn_handlers(self):
+        out = {}
+        for n in self.names:
+            for h in self.machine.events.registered_handlers.get("mode_%s_started" % n, []):
+                if cbname(h.callback) == TURN_END_CB:
+                    out[n] = out.get(n, 0) + 1
+        return out
 
     def ctl_added(self, dm, name, m, callback):
         self.uid += 1
@@ -663,6 +690,8 @@ def oracle0(case, real, crash):
         if e[0] == "q" and not any(st[0] or st[1] or st[2] for st in e[1].values()):
             for reg in ("bus", "sw", "dl"):
                 extra, missing = msub(e[3][reg], real.base[reg])
+                if reg == "bus" and any(x[2] == TURN_END_CB for x in extra):
+                    return "turn-end-handler-left-behind", {"left_behind": [x for x in extra if x[2] == TURN_END_CB][:4]}
                 if extra or missing:
                     kinds = sorted({x[2].split(".")[0] if reg == "bus" else str(x[-1]).split(".")[0] for x in extra + missing})
                     return "registry-leak:" + {"bus": "event-handlers", "sw": "switch-handlers", "dl": "delays"}[reg], \
@@ -751,6 +780,14 @@ def gen_case(r):
             ops.append(["ballend"])
         else:
             ops.append(["hitsw"])
+    gms = [m for m in names if chosen[m][1]]
+    if gms and r.random() < 0.35:
+        # the player's turn ends while a game mode is still starting (its starting queue event is held open):
+        # ModeController registers a one-shot handler on mode_<n>_started that stops it as soon as it has started
+        gm = r.choice(gms)
+        hooks.append({"mode": gm, "phase": "starting", "prio": r.choice([1, 5000]), "acts": [["wait", r.choice([5, 9])]]})
+        at = r.randint(0, len(ops))
+        ops[at:at] = [["ev", "start_" + gm], ["ballend"]] + ([["ballend"]] if r.random() < 0.3 else []) + [["adv", r.choice([1, 4, 16])]]
     ctl = [(m, pre) for m in names for pre in DELAYED_CTL.get(chosen[m][3], [])]
     if ctl:
         # post delayed control events while the mode is up, at grid instants shortly before a stop (and some at random)
@@ -851,9 +888,13 @@ def real_state_line(case, real, q, cal):
                         bus.remove(x)
                         k += 1
             counts.append(k)
+        turn = [e for e in bus if e[3] == n and e[2] == TURN_END_CB and e[0] == "mode_%s_started" % n]
+        for e in turn:
+            bus.remove(e)
+        counts.append(len(turn))
         users = sorted(int(e[4][1:]) for e in bus if e[3] == n and e[4].startswith("u"))
         bus = [e for e in bus if not (e[3] == n and e[4].startswith("u"))]
-        parts.append("%d:%d%d%d,%d,%d,%d,%d,%s" % (mid(n), a, s_, p, pr, counts[0], counts[1], counts[2],
+        parts.append("%d:%d%d%d,%d,%d,%d,%d,%d,%s" % (mid(n), a, s_, p, pr, counts[0], counts[1], counts[2], counts[3],
                                                    ",".join("%d.%d" % (mid(n), u) for u in users)))
     line = " ".join(parts) + " | act=" + ",".join(str(mid(n)) for n in act)
     sw, msw = msub(dumps["sw"], real.base["sw"])
@@ -920,6 +961,9 @@ def schedule(case, real, cal):
                 ops.append("%s %d" % (names[e[1]], m))
                 exp.append(" ".join(posts) or "ok")
             i = j
+        elif e[0] == "user" and e[1] == "turnend":
+            ops.append("turnend %d" % mid(e[2]))
+            exp.append("ok")
         elif e[0] == "user":
             ops.append("%s %d %d" % (e[1], mid(e[2]), e[3]))
             exp.append("ok")
@@ -1044,6 +1088,17 @@ def corpus():
                       ["ev", "start_m1"], ["ev", "arm_m1"], ["adv", 4], ["ev", "dis_m1"], ["ev", "stop_m1"], ["adv", 12]]})
     c.append({"kind": "modes", "game": True, "modes": {"m1": [250, True, False, "gamedly"]}, "hooks": [],
               "ops": [["ev", "start_m1"], ["adv", 2], ["ev", "arm_m1"], ["ev", "rst_m1"], ["adv", 1], ["ballend"], ["adv", 12]]})
+    # the turn ends while a game mode is still starting (ec3e75c): one-shot ModeController handler on mode_<n>_started,
+    # gone once it fired; also with two turn ends before the mode has started, and with the game ending first
+    c.append({"kind": "modes", "game": True, "modes": {"m1": [300, False, False, "dev"], "m2": [200, True, True, "gamey"]},
+              "hooks": [{"mode": "m2", "phase": "starting", "prio": 5000, "acts": [["wait", 9], ["ev", "stop_m1"]]}],
+              "ops": [["qev", "start_m2"], ["stop", "m1"], ["start", "m1", None], ["ballend"], ["ev", "start_m2"], ["adv", 16]]})
+    c.append({"kind": "modes", "game": True, "modes": {"m2": [200, True, False, "gamey"]},
+              "hooks": [{"mode": "m2", "phase": "starting", "prio": 1, "acts": [["wait", 9]]}],
+              "ops": [["ev", "start_m2"], ["ballend"], ["ballend"], ["adv", 16], ["ev", "start_m2"], ["adv", 16]]})
+    c.append({"kind": "modes", "game": True, "modes": {"m2": [200, True, False, "plain"]},
+              "hooks": [{"mode": "m2", "phase": "starting", "prio": 1, "acts": [["wait", 9]]}],
+              "ops": [["ev", "start_m2"], ["ballend"], ["ballend"], ["ballend"], ["ballend"], ["ballend"], ["adv", 16]]})
     # use_wait_queue mode started by a queue event, stopping held open, a second mode overlapping at the same priority
     c.append({"kind": "modes", "game": False, "modes": {"m1": [200, False, True, "plain"], "m2": [200, False, False, "plain"]},
               "hooks": [{"mode": "m1", "phase": "stopping", "prio": 1, "acts": [["wait", 5]]},
